@@ -117,6 +117,12 @@ def reshape(req):
         data_util.update_consumers(consumers.values(), requested_attrs)
 
         reshaper.reshape(ctx, inventory_by_rp, allocation_objects)
+        # Empty allocations for consumers that did not exist: nothing was
+        # written for them, so do not leave consumer records without
+        # allocations (removed in this same transaction).
+        for new_consumer in new_consumers_created:
+            if not allocations[new_consumer.uuid]['allocations']:
+                new_consumer.delete()
 
     def _create_allocations():
         try:
@@ -149,12 +155,6 @@ def reshape(req):
     except exception.InvalidInventory as exc:
         raise webob.exc.HTTPConflict(
             'Unable to allocate inventory: %(error)s' % {'error': exc})
-
-    # Empty allocations for consumers that did not exist: nothing was written
-    # for them, so do not leave consumer records without allocations.
-    allocation.delete_consumers(
-        [consumer for consumer in new_consumers_created
-         if not allocations[consumer.uuid]['allocations']])
 
     req.response.status = 204
     req.response.content_type = None
